@@ -875,6 +875,22 @@ func (e *Engine) GAccept(fname string, want []string) report.Obligation {
 	}
 	o.Pos = e.P.Rel(f.Pos())
 	got := e.errorClasses(f, 0)
+	// entries starting with "?" are optional: allowed, not required
+	gotSet := map[string]bool{}
+	for _, g := range got {
+		gotSet[g] = true
+	}
+	var w2 []string
+	for _, w := range want {
+		if strings.HasPrefix(w, "?") {
+			if gotSet[w[1:]] {
+				w2 = append(w2, w[1:])
+			}
+			continue
+		}
+		w2 = append(w2, w)
+	}
+	want = w2
 	sort.Strings(want)
 	gs, ws := strings.Join(got, " ∨ "), strings.Join(want, " ∨ ")
 	if gs == ws {
